@@ -1953,17 +1953,11 @@ def write_check_modules(info, rows, ir_sha):
             "-- Gen/AliasIR.lean (ir-sha: %s).  It is only a certificate: `checkFn` re-checks every entry in the kernel." % ir_sha,
             "import AurelVerif.Gen.AliasIR", "namespace AurelVerif.Gen.AliasIR", "open AurelVerif.Heap", "",
             "def summaries : List Summ := ["]
-    summ.append(",\n".join("  ⟨%s, %s, %s, %s, %s, %s⟩  -- %d %s" % (
-        str(r["ok"]).lower(), lit(r["mutA"]), lit(r["mutC"]), lit(r["retOwn"]), lit(r["retReach"]), lit(r["esc"]),
-        r["index"], r["name"]) for r in rows).replace("⟩  --", "⟩ /-").replace("\n", " -/\n") + " -/")
-    summ += ["]", "", "end AurelVerif.Gen.AliasIR", ""]
-    # the comment trick above puts the `,` after the comment; rebuild cleanly instead
-    body = []
     for i, r in enumerate(rows):
-        body.append("  /- %d %s -/ ⟨%s, %s, %s, %s, %s, %s⟩%s" % (
+        summ.append("  /- %d %s -/ ⟨%s, %s, %s, %s, %s, %s⟩%s" % (
             r["index"], r["name"], str(r["ok"]).lower(), lit(r["mutA"]), lit(r["mutC"]), lit(r["retOwn"]),
             lit(r["retReach"]), lit(r["esc"]), "," if i + 1 < n else ""))
-    summ = summ[:7] + body + ["]", "", "end AurelVerif.Gen.AliasIR", ""]
+    summ += ["]", "", "end AurelVerif.Gen.AliasIR", ""]
     fw.write_if_changed(os.path.join(GEN, "AliasSumm.lean"), "\n".join(summ))
     # contiguous chunks of roughly equal cost (cost ~ statements x variables)
     cost = [max(1, info["cost"][q]) for q in order]
